@@ -4,7 +4,7 @@ wt=$1; diff=$2; prop=$3; tier=${4:-quick}
 cd "$wt" || exit 3
 git checkout -q -- . && rm -f larking/zz_demo*_test.go
 git apply "$diff" || { echo "patch does not apply"; exit 3; }
-cd /verif && VERIF_REPO="$wt" ./check "$prop" --tier "$tier" > "/tmp/wt/result_$(basename $wt)_$(basename $diff .diff)_$prop.txt" 2>&1
+cd /verif && VERIF_REPO="$wt" ./check "$prop" --tier "$tier" > "$(dirname $wt)/result_$(basename $wt)_$(basename $diff .diff)_$prop.txt" 2>&1
 rc=$?
 cd "$wt" && git checkout -q -- .
-echo "$(basename $wt) $(basename $diff) $prop rc=$rc $(grep -c '^VIOLATION' /tmp/wt/result_$(basename $wt)_$(basename $diff .diff)_$prop.txt) violations"
+echo "$(basename $wt) $(basename $diff) $prop rc=$rc $(grep -c '^VIOLATION' $(dirname $wt)/result_$(basename $wt)_$(basename $diff .diff)_$prop.txt) violations"
